@@ -157,6 +157,23 @@ def run(ctx):
         shutil.rmtree(workroot, ignore_errors=True)
     ctx.generators["uri_references"] = {"trees": nt, "cases": nrefs}
 
+    # ---- module= namespaces: the module's callables bound to the current render's context ---------------------------------
+    for src, kw, want, tag in [
+        ('<%namespace name="m" module="harness.c07_module"/>${m.shout("hi")}|${m.who()}|<%m:wrapped>body</%m:wrapped>', {"who": "W"}, "HI|who=W|<body>", "module-qualified"),
+        ('<%namespace name="m" module="harness.c07_module" import="shout, who"/>${shout("x")}|${who()}', {"who": "V"}, "X|who=V", "module-import-names"),
+        ('<%namespace name="m" module="harness.c07_module" import="*"/>${shout("y")}|${who()}', {"who": "U"}, "Y|who=U", "module-import-star"),
+        ('<%namespace name="m" module="harness.c07_module" import="who, shout"/><%def name="d()">${who()}</%def>${d()}|${capture(shout, "q")}', {"who": "T"}, "who=T|Q", "module-import-in-def"),
+        ('<%namespace name="m" module="harness.c07_module"/>${m.nosuch()}', {}, "raised AttributeError", "module-missing-member"),
+    ]:
+        ctx.evaluations += 1
+        try:
+            out = Template(src).render(**kw)
+        except Exception as e:  # noqa
+            out = "raised %s" % type(e).__name__
+        if out != want:
+            ctx.violation({"template": src, "context": kw, "rendered": out, "expected": want}, "a module= namespace exposes the module's callables bound to the current render's context",
+                          tags=["c07.module." + tag])
+
     # ---- (b) member precedence ----------------------------------------------------------------------------------
     NAMES = ["a", "b", "c", "d", "len"]
     nb = 150 if tier == "quick" else 30000
